@@ -493,36 +493,61 @@ fn rt_stream(sink: &mut CaseSink, seed: u64, thorough: bool) -> Value {
 // ------------------------------------------------------------------ fault stream
 /// (outcome of load_from_file, outcome of solving the loaded solver: "" = not attempted)
 fn load_observed(bytes: &[u8], solve: bool) -> (String, String) {
+    let (a, b, _) = load_observed_with(bytes, solve, None);
+    (a, b)
+}
+/// same with a settings argument; third component: the loaded solver's settings as a Coq term
+fn load_observed_with(bytes: &[u8], solve: bool, over: Option<DefaultSettings<f64>>) -> (String, String, String) {
     let data = bytes.to_vec();
     let (tx, rx) = std::sync::mpsc::channel::<String>();
     let r = watchdog(30, move || {
         let mut f = file_with(&data, &format!("ft{:?}", std::thread::current().id()).replace(|c: char| !c.is_alphanumeric(), ""));
-        let r = guarded(|| DefaultSolver::<f64>::load_from_file(&mut f, None).map_err(|e| e.to_string()));
+        let r = guarded(|| DefaultSolver::<f64>::load_from_file(&mut f, over).map_err(|e| e.to_string()));
         match r {
             None => None,
             Some(Err(e)) => Some(Err(e)),
             Some(Ok(mut s)) => {
                 let _ = tx.send("loaded".into());
+                let lset = settings_coq(&s.settings);
                 if solve {
                     let so = match guarded(|| { s.solve(); status_name(s.solution.status) }) { Some(st) => st, None => "panic".to_string() };
-                    Some(Ok(so))
-                } else { Some(Ok(String::new())) }
+                    Some(Ok((so, lset)))
+                } else { Some(Ok((String::new(), lset))) }
             }
         }
     });
     match r {
-        None => if rx.try_recv().is_ok() { ("ok".into(), "hang".into()) } else { ("hang".into(), String::new()) },
-        Some(None) => ("panic".into(), String::new()),
-        Some(Some(Ok(so))) => ("ok".into(), so),
-        Some(Some(Err(e))) => (format!("err:{}", e), String::new()),
+        None => if rx.try_recv().is_ok() { ("ok".into(), "hang".into(), String::new()) } else { ("hang".into(), String::new(), String::new()) },
+        Some(None) => ("panic".into(), String::new(), String::new()),
+        Some(Some(Ok((so, lset)))) => ("ok".into(), so, lset),
+        Some(Some(Err(e))) => (format!("err:{}", e), String::new(), String::new()),
     }
+}
+/// a file loaded with a settings argument (override = default, verbose off, plus the listed deviations);
+/// accepted files are solved
+fn fault_over(sink: &mut CaseSink, seen: &mut HashSet<Vec<u8>>, base: &str, what: &str, bytes: Vec<u8>, over_spec: &Value) {
+    tick();
+    let mut key = bytes.clone();
+    key.extend_from_slice(b"\0override\0");
+    key.extend_from_slice(over_spec.to_string().as_bytes());
+    if !seen.insert(key) { return; }
+    let mut over = DefaultSettings::<f64>::default();
+    over.verbose = false;
+    for p in over_spec.as_array().unwrap() { settings_set(&mut over, p[0].as_str().unwrap(), &sv_from_json(&p[1])); }
+    let syntax_ok = serde_json::from_slice::<Value>(&bytes).is_ok();
+    let (observed, solved, lset) = load_observed_with(&bytes, true, Some(over.clone()));
+    let mut rec = json!({"kind": "fault", "base": base, "mut": what, "syntax_ok": syntax_ok, "observed": observed, "solve": solved,
+                         "over": over_spec, "over_coq": settings_coq(&over), "loaded_set": lset});
+    rec["text"] = json!(String::from_utf8_lossy(&bytes).to_string());
+    sink.record(rec);
+    sink.n += 1;
 }
 fn fault(sink: &mut CaseSink, seen: &mut HashSet<Vec<u8>>, base: &str, what: &str, bytes: Vec<u8>) {
     tick();
     if !seen.insert(bytes.clone()) { return; }
     let syntax_ok = serde_json::from_slice::<Value>(&bytes).is_ok();
     // files of the settings near-miss stream are also solved after a successful load
-    let (observed, solved) = load_observed(&bytes, base.starts_with("settings:"));
+    let (observed, solved) = load_observed(&bytes, base.starts_with("settings:") || base.starts_with("override:"));
     let mut rec = json!({"kind": "fault", "base": base, "mut": what, "syntax_ok": syntax_ok, "observed": observed, "solve": solved});
     match String::from_utf8(bytes.clone()) {
         Ok(s) => { rec["text"] = json!(s); }
@@ -839,7 +864,11 @@ fn main() {
                 Some("fault") => {
                     let bytes = if let Some(t) = c.get("text").and_then(|t| t.as_str()) { t.as_bytes().to_vec() }
                                 else { let h = c["hex"].as_str().unwrap_or(""); (0..h.len() / 2).map(|k| u8::from_str_radix(&h[2 * k..2 * k + 2], 16).unwrap()).collect() };
-                    fault(&mut sink, &mut seen, c["base"].as_str().unwrap_or("replay"), c["mut"].as_str().unwrap_or("replay"), bytes);
+                    if c.get("over").map(|o| o.is_array()).unwrap_or(false) {
+                        fault_over(&mut sink, &mut seen, c["base"].as_str().unwrap_or("replay"), c["mut"].as_str().unwrap_or("replay"), bytes, &c["over"]);
+                    } else {
+                        fault(&mut sink, &mut seen, c["base"].as_str().unwrap_or("replay"), c["mut"].as_str().unwrap_or("replay"), bytes);
+                    }
                 }
                 _ => {}
             }
